@@ -87,7 +87,7 @@ Qed.
 
 Lemma copy_file_P sb sl name bh : P sb -> P (fst (fst (copy_file bstep lstep sb sl name bh))).
 Proof.
-  intros Hs. unfold copy_file. cbv zeta.
+  intros Hs. unfold copy_file, copy_file_gen. cbv zeta.
   destruct (l_exists lstep sl (copy_dir name)) as [sl0 ex]. destruct ex as [ex|e]; [|exact Hs].
   match goal with |- P (fst (fst (match ?x with pair _ _ => _ end))) => destruct x as [sl1 mk] end.
   destruct mk; [exact Hs|].
